@@ -1242,6 +1242,34 @@ Proof.
   - apply IH. intros a b Ha. apply H. now right.
 Qed.
 
+(* a mapped function has at least one output name (a MapSpec has at least one output) *)
+Definition prep_named (p : prep) : Prop :=
+  match p with PMapped f _ _ _ _ => fouts f <> [] | PSingle _ _ => True end.
+
+Lemma prep_func_named user shapes e f p s :
+  (is_mapped f = true -> fouts f <> []) -> prep_func user shapes e f = Ok (p, s) -> prep_named p.
+Proof.
+  intros Hn. unfold prep_func. destruct (func_shape user shapes f) as [shm|]; cbn [bind]; [|discriminate].
+  destruct (func_kwargs f e) as [kw|]; cbn [bind]; [|discriminate].
+  destruct (is_mapped f).
+  - destruct (fspec f); [|discriminate]. destruct shm as [[sh mask]|]; [|discriminate].
+    intros [= <- _]. cbn [prep_named]. now apply Hn.
+  - intros [= <- _]. exact I.
+Qed.
+
+Lemma submit_gen_named user e gen : forall shapes preps s,
+  (forall f, In f gen -> is_mapped f = true -> fouts f <> []) ->
+  submit_gen user e shapes gen = Ok (preps, s) -> Forall prep_named preps.
+Proof.
+  induction gen as [|f t IH]; intros shapes preps s Hn H; cbn [submit_gen] in H.
+  - injection H as <- _. constructor.
+  - destruct (prep_func user shapes e f) as [[p sa]|] eqn:Ep; cbn [bind fst snd] in H; [|discriminate].
+    destruct (submit_gen user e sa t) as [[ps sb]|] eqn:Et; cbn [bind fst snd] in H; [|discriminate].
+    injection H as <- _. constructor.
+    + eapply prep_func_named; [|exact Ep]. apply Hn. now left.
+    + eapply IH; [|exact Et]. intros g Hg. apply Hn. now right.
+Qed.
+
 Section Converse.
   Variable body : mfunc -> env -> result (list val).
   Variable dis : str -> bool.
@@ -1317,11 +1345,11 @@ Section Converse.
   Notation done := (execute body dis (flat_map tasks_of preps_all) (order (length (flat_map tasks_of preps_all)) pi)).
 
   Lemma finish_seq_rev wtrace pre p post r c0 :
-    preps_all = pre ++ p :: post -> fouts (prep_fun p) <> [] ->
+    preps_all = pre ++ p :: post -> prep_named p ->
     finish_prep dis done wtrace (length (flat_map tasks_of pre)) p = Ok r ->
     exists c1, seq_prep body c0 p = Ok c1.
   Proof.
-    intros Hp Hne H. destruct p as [f ms kw sh mask|f kw]; cbn [finish_prep seq_prep prep_fun] in *.
+    intros Hp Hne H. destruct p as [f ms kw sh mask|f kw]; cbn [finish_prep seq_prep prep_fun prep_named] in *.
     - destruct (mapM _ (seq 0 _)) as [ol|e] eqn:Em; cbn [bind] in H; [|discriminate].
       destruct (collect_mapped dis f ms sh mask _ ol) as [[A T]|e] eqn:Ec; cbn [bind] in H; [|discriminate].
       cbn [missing_of] in Em, Ec. rewrite seq_length in Em.
@@ -1342,7 +1370,7 @@ Section Converse.
   Qed.
 
   Lemma parent_seq_rev wtrace : forall rest pre c0 ps ps',
-    preps_all = pre ++ rest -> (forall p, In p rest -> fouts (prep_fun p) <> []) ->
+    preps_all = pre ++ rest -> (forall p, In p rest -> prep_named p) ->
     parent dis done wtrace rest (length (flat_map tasks_of pre)) ps = Ok ps' ->
     exists c, seq_preps body c0 rest = Ok c.
   Proof.
@@ -1393,14 +1421,14 @@ Section ConverseRun.
   Lemma par_gen_seq_ok ps rs gen pi ps' :
     st_rel ps rs ->
     (forall f, In f gen -> forall q, In q (fparams f) -> ~ In q (flat_map fouts gen)) ->
-    (forall f, In f gen -> fouts f <> []) ->
+    (forall f, In f gen -> is_mapped f = true -> fouts f <> []) ->
     par_gen body dis user ps gen pi = Ok ps' ->
     exists rs', seq_fold gen (Ok rs) = Ok rs'.
   Proof.
     intros (He & Hsh & _) Hlay Hne H. unfold par_gen in H.
     destruct (submit_gen user (p_env ps) (p_shapes ps) gen) as [[preps shapes']|e] eqn:Es; cbn [bind fst snd] in H; [|discriminate].
-    assert (forall p, In p preps -> fouts (prep_fun p) <> []) as Hne'.
-    { intros p Hp. apply Hne. rewrite <- (submit_gen_funs _ _ _ _ _ _ Es). now apply in_map. }
+    assert (forall p, In p preps -> prep_named p) as Hne'.
+    { apply Forall_forall. eapply submit_gen_named; eassumption. }
     destruct (parent_seq_rev body dis preps pi _ preps [] (core_of rs) _ _ eq_refl Hne' H) as [c Hc].
     exists (state_of c shapes'). apply (seq_preps_gen gen rs (r_env rs) [] preps shapes' c); try assumption.
     - reflexivity.
@@ -1410,7 +1438,7 @@ Section ConverseRun.
 
   Theorem par_gens_seq_ok : forall gens ps rs pis ps',
     st_rel ps rs -> NoDup (flat_map fouts (concat gens)) -> layered gens = true ->
-    (forall f, In f (concat gens) -> fouts f <> []) ->
+    (forall f, In f (concat gens) -> is_mapped f = true -> fouts f <> []) ->
     par_gens body dis user ps gens pis = Ok ps' ->
     exists rs', seq_fold (concat gens) (Ok rs) = Ok rs'.
   Proof.
@@ -1551,7 +1579,7 @@ Section Theorems2.
   (* converse: a parallel run that succeeds (for SOME schedule) implies that the sequential run succeeds, with the
      same results; hence the parallel run succeeds for one schedule iff it succeeds for all of them *)
   Theorem par_ok_seq_ok gens inputs pis ps :
-    layering_ok gens = true -> (forall f, In f (concat gens) -> fouts f <> []) ->
+    layering_ok gens = true -> (forall f, In f (concat gens) -> is_mapped f = true -> fouts f <> []) ->
     par_run body dis gens inputs user pis = Ok ps ->
     exists rs, map_run body (concat gens) inputs user = Ok rs
                /\ p_env ps = r_env rs /\ p_shapes ps = r_shapes rs /\ p_out ps = r_out rs
@@ -1568,7 +1596,7 @@ Section Theorems2.
   Qed.
 
   Corollary par_ok_any_schedule gens inputs pis pis' ps :
-    layering_ok gens = true -> (forall f, In f (concat gens) -> fouts f <> []) ->
+    layering_ok gens = true -> (forall f, In f (concat gens) -> is_mapped f = true -> fouts f <> []) ->
     par_run body dis gens inputs user pis = Ok ps ->
     exists ps', par_run body dis gens inputs user pis' = Ok ps' /\ p_out ps' = p_out ps /\ p_env ps' = p_env ps.
   Proof.
@@ -1577,3 +1605,40 @@ Section Theorems2.
     exists ps'. repeat split; congruence.
   Qed.
 End Theorems2.
+
+(* the hypothesis of the converse theorems follows from C01's request_ok: a function with a MapSpec carries the
+   output names of its (non-empty) MapSpec outputs *)
+Lemma request_ok_named p inputs :
+  MapDenote.request_ok p inputs = true -> forall f, In f p -> is_mapped f = true -> fouts f <> [].
+Proof.
+  unfold MapDenote.request_ok. intros H f Hf Hm.
+  apply andb_true_iff in H as [H _]. apply andb_true_iff in H as [H _].
+  rewrite forallb_forall in H. specialize (H f Hf). unfold MapDenote.func_ok in H.
+  apply andb_true_iff in H as [_ H]. unfold is_mapped in Hm.
+  destruct (fspec f) as [ms|]; [|discriminate].
+  do 4 (apply andb_true_iff in H as [H _]).
+  apply andb_true_iff in H as [Hwf Heq].
+  apply (list_eqb_eq str_eqb str_eqb_eq) in Heq. rewrite <- Heq.
+  unfold wf_decl in Hwf. apply andb_true_iff in Hwf as [_ Hwf].
+  destruct (outs ms); [discriminate|]. discriminate.
+Qed.
+
+Section Theorems3.
+  Variable body : mfunc -> env -> result (list val).
+  Variable dis : str -> bool.
+  Variable user : shape_dict.
+
+  Theorem par_ok_seq_ok_req gens inputs pis ps :
+    layering_ok gens = true -> MapDenote.request_ok (concat gens) inputs = true ->
+    par_run body dis gens inputs user pis = Ok ps ->
+    exists rs, map_run body (concat gens) inputs user = Ok rs
+               /\ p_env ps = r_env rs /\ p_shapes ps = r_shapes rs /\ p_out ps = r_out rs
+               /\ length (p_log ps) = r_calls rs.
+  Proof. intros Hl Hr. apply par_ok_seq_ok; [exact Hl|exact (request_ok_named _ _ Hr)]. Qed.
+
+  Theorem par_ok_any_schedule_req gens inputs pis pis' ps :
+    layering_ok gens = true -> MapDenote.request_ok (concat gens) inputs = true ->
+    par_run body dis gens inputs user pis = Ok ps ->
+    exists ps', par_run body dis gens inputs user pis' = Ok ps' /\ p_out ps' = p_out ps /\ p_env ps' = p_env ps.
+  Proof. intros Hl Hr. apply par_ok_any_schedule; [exact Hl|exact (request_ok_named _ _ Hr)]. Qed.
+End Theorems3.
